@@ -14,7 +14,7 @@ def env_cfg(rng, adapter, T):
         "script": make_script(rng, T),
         "obs_dim": rng.choice([1, 2, 3]),
         "act_dim": act_dim,
-        "discrete": rng.choice([2, 3]) if ad.discrete else 0,
+        "discrete": rng.choice([2, 3]) if (ad.discrete or getattr(ad, "force_discrete", False) or (ad.name in ("reinforce", "actor_critic", "a2c") and rng.random() < 0.4)) else 0,
         "low": low, "high": high,
         "tail_len": rng.choice([1, 3, 7]), "tail_end": rng.choice(["term", "trunc"]),
         "space_seed": rng.randrange(2**31),
@@ -28,6 +28,21 @@ def base_plan(rng, prop, clauses, adapter, T=None):
     T = T or rng.choice([12, 20, 30, 45])
     e = env_cfg(rng, adapter, T)
     cfg = ad.cfg(rng, e, T)
+    if ad.vector:
+        e["scripts"] = [make_script(rng, T) for _ in range(cfg["num_envs"])]
+    if ad.name == "ppo":
+        T = cfg["iterations"] * cfg["batch_size"] * cfg["num_envs"]
+    # batches of a single row are rejected loudly by the on-policy losses (chex shape assertion after squeeze);
+    # that is the "loud rejection" C12 allows, so such datasets are not generated
+    if ad.name in ("reinforce", "actor_critic"):
+        if cfg["train_after_episode"]:
+            for ep in e["script"]:
+                ep["len"] = max(2, ep["len"])
+            e["tail_len"] = max(2, e["tail_len"])
+        else:
+            cfg["steps_per_update"] = max(2, cfg["steps_per_update"])
+    if ad.name == "a2c" and cfg["steps_per_update"] * cfg["num_envs"] < 2:
+        cfg["steps_per_update"] = 2
     plan = {
         "check": prop, "clauses": clauses, "adapter": adapter, "seed": rng.randrange(2**31),
         "env": e, "cfg": cfg, "logger": rng.random() < 0.7, "supply_targets": rng.random() < 0.5,
